@@ -170,15 +170,35 @@ fn strat(t: Tier) -> proptest::strategy::BoxedStrategy<ValidCase> {
     }
 }
 
+/// The layout that puts moov first must keep its chunk offsets correct (or refuse) when they approach 2^32: C16's limit case
+/// for fast start, judged here for the offsets clause.
+fn limit_cases(t: Tier) -> Vec<crate::props::c16::LimitCase> {
+    crate::props::c16::limit_cases(t).into_iter().filter(|c| c.fast_start).collect()
+}
+fn eval_limit(c: &crate::props::c16::LimitCase) -> Outcome {
+    let inner = crate::props::c16::eval_limit(c);
+    let mut o = Outcome::default();
+    o.nontrivial = inner.nontrivial;
+    o.aborted_by_panic = inner.aborted_by_panic;
+    for mut v in inner.violations {
+        if v.clause == "stco" || v.clause == "box_size" {
+            v.clause = "resolve".into();
+            v.sig = format!("resolve.{}", v.sig);
+            o.violations.push(v);
+        }
+    }
+    o
+}
+
 pub fn def() -> PropertyDef {
     PropertyDef {
-        fuzz_targets: &[],
+        fuzz_targets: &["c01_scenario"],
         id: "C08",
         level: "exploration",
         rule: "each generated history is muxed twice (fast start on / off), titles of 0..~5000 bytes move the mdat; top-level order, \
                per-layout sample resolution and equality of the layout-free description (tracks, headers, config, timing, samples with bytes, udta) \
                are compared; non-trivial = >=2 samples and moov >= 1 KiB",
         assumptions: &["a resolution failure that is identical in both layouts is attributed to C01 and only counted here"],
-        subs: vec![Box::new(PSub { name: "layouts", quick: 8000, thorough: 250000, strat, eval }), Box::new(LSub { name: "long_recordings", cases: long_cases_all, eval, note: LONG_NOTE })],
+        subs: vec![Box::new(PSub { name: "layouts", quick: 8000, thorough: 250000, strat, eval }), Box::new(LSub { name: "long_recordings", cases: long_cases_all, eval, note: LONG_NOTE }), Box::new(LSub { name: "four_gib_limit", cases: limit_cases, eval: eval_limit, note: "the fast-start cases of C16\'s four_gib_limit list (chunk offsets approaching 2^32 behind ftyp + moov)" })],
     }
 }
